@@ -689,7 +689,7 @@ func (x *Exec) run(fr *frame, blk, prev, stop *ssa.BasicBlock, phisSet bool) run
 				fr.loopIters = map[*ssa.BasicBlock]int{}
 			}
 			fr.loopIters[blk]++
-			if fr.loopIters[blk] > x.eng.LoopLimit || x.loops[blk] > 200*x.eng.LoopLimit {
+			if fr.loopIters[blk] > x.eng.LoopLimit || x.loops[blk] > 50*x.eng.LoopLimit {
 				panic(&GoPanic{Msg: fmt.Sprintf("VERIF-UNWIND: loop at %s block %d exceeds %d iterations", fr.fn, blk.Index, x.eng.LoopLimit), Stack: x.stackTrace()})
 			}
 		}
